@@ -18,6 +18,12 @@ extra='/verif/tools/claims_extra.py'
 if os.path.exists(extra):
     spec=importlib.util.spec_from_file_location('ce',extra); m=importlib.util.module_from_spec(spec); spec.loader.exec_module(m)
     CLAIMS.update(m.CLAIMS); NA.update(getattr(m,'NA',{}))
+    for pid, old, new, tech_add, claim_add in getattr(m,'AMEND',[]):
+        lvl, claim, trust, tech = CLAIMS[pid]
+        if old:
+            assert old in claim, (pid, old)
+            claim = claim.replace(old, new)
+        CLAIMS[pid] = (lvl, claim + claim_add, trust, tech + tech_add)
 checks=[]
 for p in props:
     i=p['id']
